@@ -53,6 +53,45 @@ instance : Mul I := ⟨mul⟩
 instance : Div I := ⟨div⟩
 instance : Neg I := ⟨neg⟩
 
+/-! ### fixed-point kernel
+
+Inner loops of the transcendental enclosures run on integer pairs scaled by
+`2^prec` (no gcd normalisation): `FI.lo / 2^prec ≤ value ≤ FI.hi / 2^prec`. -/
+
+structure FI where
+  lo : Int
+  hi : Int
+  deriving Repr, Inhabited
+
+namespace FI
+/-- ⌊x / 2^prec⌋ and ⌈x / 2^prec⌉ on integers -/
+def fdivP (x : Int) : Int := x >>> prec
+def cdivP (x : Int) : Int := -((-x) >>> prec)
+
+def one : FI := ⟨(scaleN : Int), (scaleN : Int)⟩
+def ofRat (q : Rat) : FI := ⟨(q * (scaleN : Rat)).floor, (q * (scaleN : Rat)).ceil⟩
+def toI (a : FI) : I := ⟨(a.lo : Rat) / (scaleN : Rat), (a.hi : Rat) / (scaleN : Rat)⟩
+def add (a b : FI) : FI := ⟨a.lo + b.lo, a.hi + b.hi⟩
+def neg (a : FI) : FI := ⟨-a.hi, -a.lo⟩
+def imin (a b : Int) : Int := if a ≤ b then a else b
+def imax (a b : Int) : Int := if a ≤ b then b else a
+def mul (a b : FI) : FI :=
+  let p1 := a.lo * b.lo; let p2 := a.lo * b.hi; let p3 := a.hi * b.lo; let p4 := a.hi * b.hi
+  ⟨fdivP (imin (imin p1 p2) (imin p3 p4)), cdivP (imax (imax p1 p2) (imax p3 p4))⟩
+def sq (a : FI) : FI :=
+  if a.lo ≥ 0 then ⟨fdivP (a.lo * a.lo), cdivP (a.hi * a.hi)⟩
+  else if a.hi ≤ 0 then ⟨fdivP (a.hi * a.hi), cdivP (a.lo * a.lo)⟩
+  else ⟨0, cdivP (imax (a.lo * a.lo) (a.hi * a.hi))⟩
+/-- divide by a positive natural -/
+def divNat (a : FI) (n : Nat) : FI := ⟨Int.fdiv a.lo n, -(Int.fdiv (-a.hi) n)⟩
+/-- multiply by an integer -/
+def mulInt (a : FI) (n : Int) : FI := if n ≥ 0 then ⟨a.lo * n, a.hi * n⟩ else ⟨a.hi * n, a.lo * n⟩
+/-- quotient of a non-negative interval by a positive one -/
+def divPos (a b : FI) : FI :=
+  ⟨Int.fdiv (a.lo * (scaleN : Int)) b.hi, -(Int.fdiv (-(a.hi * (scaleN : Int))) b.lo)⟩
+def widen (a : FI) (e : Int) : FI := ⟨a.lo - e, a.hi + e⟩
+end FI
+
 /-! ### sqrt -/
 
 def sqrtLo (q : Rat) : Rat :=
@@ -67,44 +106,7 @@ def sqrt (a : I) : I := ⟨sqrtLo a.lo, sqrtHi a.hi⟩
 
 /-! ### exp -/
 
-/-- Taylor partial sum Σ_{k≤n} r^k/k! -/
-def expTaylor (r : Rat) (n : Nat) : Rat :=
-  let (s, _) := (List.range n).foldl (fun (s, term) k =>
-    let term' := term * r / ((k + 1 : Nat) : Rat); (s + term', term')) ((1 : Rat), (1 : Rat))
-  s
-
 def ratPowNat (q : Rat) (n : Nat) : Rat := (List.range n).foldl (fun acc _ => acc * q) 1
-
-/-- enclosure of exp q for a rational q -/
-def expQ (q : Rat) : I :=
-  -- halve until |r| ≤ 1/2
-  let k : Nat := (List.range 64).foldl (fun k _ => if ratAbs q / (2 ^ k : Nat) > 1 / 2 then k + 1 else k) 0
-  let r := q / ((2 ^ k : Nat) : Rat)
-  let r := rdn r            -- exp is monotone: use an interval [rdn r, rup r] of tiny width
-  let r2 := r + 1 / (scaleN : Rat)
-  let n := 40
-  let fact : Nat := (List.range (n + 1)).foldl (fun a i => a * (i + 1)) 1   -- (n+1)!
-  let rem (x : Rat) : Rat := 2 * ratPowNat (ratAbs x) (n + 1) / (fact : Rat)
-  let lo := rdn (expTaylor r n - rem r)
-  let hi := rup (expTaylor r2 n + rem r2)
-  let base : I := ⟨ratMax lo 0, hi⟩
-  (List.range k).foldl (fun acc _ => sq acc) base
-
-def exp (a : I) : I := ⟨(expQ a.lo).lo, (expQ a.hi).hi⟩
-
-/-! ### log -/
-
-/-- 2·atanh z series: Σ_{k≤n} 2 z^(2k+1)/(2k+1), |z| ≤ 1/3, with remainder bound -/
-def atanh2 (z : Rat) : I :=
-  let n := 45
-  let z2 := z * z
-  let (s, pw) := (List.range (n + 1)).foldl (fun (s, pw) k =>
-    (s + 2 * pw / ((2 * k + 1 : Nat) : Rat), pw * z2)) ((0 : Rat), z)
-  -- pw = z^(2n+3)
-  let rem := 2 * ratAbs pw / (((2 * n + 3 : Nat) : Rat) * (1 - z2))
-  mk' (s - rem) (s + rem)
-
-def ln2 : I := atanh2 (1 / 3)
 
 /-- binary exponent e with 2^e ≤ q < 2^(e+1), q > 0 -/
 def ilog2 (q : Rat) : Int :=
@@ -112,15 +114,68 @@ def ilog2 (q : Rat) : Int :=
   -- a is within 1 of the answer
   if pow2 (a + 1) ≤ q then a + 1 else if pow2 a ≤ q then a else a - 1
 
+/-- number of halvings k after which |q|/2^k < 1/64: ⌊log₂|q|⌋ + 7 (0 for q = 0 or tiny q) -/
+def expHalvings (q : Rat) : Nat :=
+  if q == 0 then 0 else (ilog2 (ratAbs q) + 7).toNat
+
+/-- Horner form of the Taylor polynomial in fixed point:
+`expHorner r n f j` = 1 + r/j (1 + r/(j+1) (… (1 + r/n))) -/
+def expHorner (r : FI) (n : Nat) : Nat → Nat → FI
+  | 0, _ => FI.one
+  | f + 1, j => if j > n then FI.one else FI.add FI.one (FI.divNat (FI.mul r (expHorner r n f (j + 1))) j)
+
+def expTerms : Nat := 16
+def expFact : Nat := (List.range (expTerms + 1)).foldl (fun a i => a * (i + 1)) 1     -- (n+1)!
+
+/-- ⌈ra^(m) ⌉ in fixed point for a non-negative fixed-point magnitude `ra` -/
+def fpPow (ra : Int) : Nat → Int
+  | 0 => (scaleN : Int)
+  | m + 1 => FI.cdivP (fpPow ra m * ra)
+
+/-- fixed-point enclosure of exp r for |r| ≤ 1/64: Taylor polynomial of degree 16 plus remainder 2|r|^17/17! -/
+def expSmallF (r : FI) : FI :=
+  let p := expHorner r expTerms (expTerms + 1) 1
+  let ra := FI.imax (-r.lo) r.hi
+  let rem : Int := -(Int.fdiv (-(2 * fpPow ra (expTerms + 1))) (expFact : Int)) + 1
+  ⟨FI.imax (p.lo - rem) 0, p.hi + rem⟩
+
+/-- fixed-point enclosure of exp q for a rational q: reduce to |r| ≤ 1/64, expand, square k times -/
+def expF (q : Rat) : FI :=
+  let k := expHalvings q
+  let r := q / ((2 ^ k : Nat) : Rat)
+  (List.range k).foldl (fun acc _ => FI.sq acc) (expSmallF (FI.ofRat r))
+
+def expQ (q : Rat) : I := (expF q).toI
+
+def exp (a : I) : I := ⟨(expQ a.lo).lo, (expQ a.hi).hi⟩
+
+/-! ### log -/
+
+/-- 2·atanh z series in fixed point: Σ_{k≤n} 2 z^(2k+1)/(2k+1), |z| ≤ 1/3, with remainder bound
+2|z|^(2n+3)/((2n+3)(1−z²)) ≤ 3|z|^(2n+3)/(2n+3)·… (we use 1/(1−z²) ≤ 9/8) -/
+def atanh2F (z : FI) : FI :=
+  let n := 45
+  let z2 := FI.sq z
+  let (s, pw) := (List.range (n + 1)).foldl (fun (acc : FI × FI) k =>
+    let (s, pw) := acc
+    (FI.add s (FI.divNat (FI.mulInt pw 2) (2 * k + 1)), FI.mul pw z2)) ((⟨0, 0⟩ : FI), z)
+  -- pw encloses z^(2n+3)
+  let pa := FI.imax (-pw.lo) pw.hi
+  let rem : Int := -(Int.fdiv (-(pa * 9)) (4 * (2 * n + 3 : Nat))) + 1     -- 2·(9/8)·|pw|/(2n+3)
+  FI.widen s rem
+
+def atanh2 (z : Rat) : I := (atanh2F (FI.ofRat z)).toI
+
+def ln2 : I := atanh2 (1 / 3)
+
 def logQ (q : Rat) : I :=
   if q ≤ 0 then ⟨-(scaleN : Rat), -(scaleN : Rat)⟩ else
   let e0 := ilog2 q
   let m0 := q / pow2 e0          -- in [1,2)
   let (m, e) := if m0 > 4 / 3 then (m0 / 2, e0 + 1) else (m0, e0)
   let z := (m - 1) / (m + 1)
-  -- z is exact rational; round it into a tiny interval and use monotonicity of atanh
-  let zl := rdn z; let zh := rup z
-  let a := hull (atanh2 zl) (atanh2 zh)
+  -- z is an exact rational; `atanh2` rounds it into a tiny fixed-point interval
+  let a := atanh2 z
   add a (scale (e : Rat) ln2)
 
 def log (a : I) : I := ⟨(logQ a.lo).lo, (logQ a.hi).hi⟩
@@ -157,8 +212,24 @@ def atanQ (q : Rat) : I :=
 
 def sqrt2pi : I := sqrt (scale 2 pi)
 
+def sqrt2piF : FI := ⟨(sqrt2pi.lo * (scaleN : Rat)).floor, (sqrt2pi.hi * (scaleN : Rat)).ceil⟩
+
 /-- φ(z) = exp(−z²/2)/√(2π) -/
-def phi (z : Rat) : I := div (expQ (-(z * z) / 2)) sqrt2pi
+def phiF (z : Rat) : FI := FI.divPos (expF (-(z * z) / 2)) sqrt2piF
+def phi (z : Rat) : I := (phiF z).toI
+
+/-- series loop for Σ z^(2k+1)/(2k+1)!! on the fixed-point grid 2^-prec: `t` is the current term
+(scaled by 2^prec, rounded up), `s` the running sum (scaled); stops when the term is at most one
+grid unit and the ratio z²/(2k+3) is at most 1/2 -/
+def phiLoop (zn zd : Nat) : Nat → Nat → Nat → Nat → Nat × Nat × Nat
+  | 0, k, s, t => (s, t, k)
+  | f + 1, k, s, t =>
+    -- ratio ρ_k = zn / (zd (2k+3))
+    if t ≤ 1 ∧ 2 * zn ≤ zd * (2 * k + 3) then (s, t, k)
+    else
+      let den := zd * (2 * k + 3)
+      let t' := (t * zn + den - 1) / den          -- ⌈t ρ_k⌉
+      phiLoop zn zd f (k + 1) (s + t') t'
 
 /-- Φ(z) enclosure.  |z| ≤ 7: 1/2 + φ(z) Σ z^(2k+1)/(2k+1)!!, remainder by the geometric bound;
 |z| > 7: Mills ratio bounds 0 ≤ Φ(−|z|) ≤ φ(z)/|z|. -/
@@ -167,18 +238,22 @@ def Phi (z : Rat) : I :=
     let t : I := ⟨0, (div (phi z) (ofRat (ratAbs z))).hi⟩
     if z < 0 then t else sub (ofRat 1) t
   else
-    let n := 160
+    let az := ratAbs z
     let z2 := z * z
-    let (s, term) := (List.range n).foldl (fun (s, term) k =>
-      let term' := rup (term * z2 / ((2 * k + 3 : Nat) : Rat))   -- |term| rounded up: keeps an upper bound
-      (s + term', term')) (ratAbs z, ratAbs z)
-    -- series in |z|: all terms positive; s_lo = exact lower bound is the partial sum with rdn; we
-    -- bound both ways by the accumulated rounding slack n/2^prec plus the geometric tail
-    let tail := term * (z2 / ((2 * n + 3 : Nat) : Rat)) / (1 - z2 / ((2 * n + 3 : Nat) : Rat))
-    let slack := ((n : Nat) : Rat) * (1 + s) * ((2 ^ 24 : Nat) : Rat) / (scaleN : Rat)
-    let S : I := ⟨s - slack, s + tail + slack⟩
-    let half := mul (phi z) S          -- Φ(|z|) − 1/2
-    if z ≥ 0 then add (ofRat (1 / 2)) half else sub (ofRat (1 / 2)) half
+    let t0 : Nat := (az * (scaleN : Rat)).ceil.toNat
+    let (sN, tN, k) := phiLoop z2.num.toNat z2.den 400 0 t0 t0
+    let s : Rat := (sN : Rat) / (scaleN : Rat)
+    let term : Rat := (tN : Rat) / (scaleN : Rat)
+    let rho := z2 / ((2 * k + 3 : Nat) : Rat)
+    -- on exit rho ≤ 1/2 (or the fuel ran out: then fall back to a trivially valid enclosure)
+    if rho > 1 / 2 then
+      (if z ≥ 0 then ⟨1 / 2, 1⟩ else ⟨0, 1 / 2⟩)
+    else
+      let tail := term * rho / (1 - rho)
+      let slack := (((k + 2 : Nat) : Rat)) * (1 + s) * ((2 ^ 24 : Nat) : Rat) / (scaleN : Rat)
+      let S : I := ⟨ratMax (s - slack) 0, s + tail + slack⟩
+      let half := mul (phi z) S          -- Φ(|z|) − 1/2
+      if z ≥ 0 then add (ofRat (1 / 2)) half else sub (ofRat (1 / 2)) half
 
 end I
 end MV
